@@ -266,6 +266,19 @@ def handled (T : Tables) (s : St) (t : Nat) : Bool :=
   t == MSG_IGNORE || t == MSG_DISCONNECT || t == MSG_DEBUG ||
   (transportTable T s).contains t || T.channel.contains t || (authTable T s).contains t
 
+/-- message types that only ever travel client → server (RFC 4253 §10 SERVICE_REQUEST; RFC 4252 USERAUTH_REQUEST,
+method-specific 61 INFO_RESPONSE / GSSAPI_TOKEN, 63 GSSAPI_EXCHANGE_COMPLETE, 66 GSSAPI_MIC): a *client* has no
+business handling them -/
+def clientToServer : List Nat := [5, 50, 61, 63, 66]
+
+/-- message types that only ever travel server → client (SERVICE_ACCEPT; USERAUTH_FAILURE / SUCCESS / BANNER;
+method-specific 60 PK_OK / INFO_REQUEST / GSSAPI_RESPONSE, 64 GSSAPI_ERROR, 65 GSSAPI_ERRTOK): a *server* has no
+business handling them -/
+def serverToClient : List Nat := [6, 51, 52, 53, 60, 64, 65]
+
+/-- types whose protocol direction makes them meaningless for a transport in this role -/
+def wrongDirection (server : Bool) : List Nat := if server then serverToClient else clientToServer
+
 /-- the fallback branch of `run()` -/
 def fallback (T : Tables) (s : St) (ptype seqno : Nat) : St :=
   if ¬ T.namesTotal ∧ ¬ T.names.contains ptype then s.fail .keyError
